@@ -3,6 +3,9 @@ import KG.Spec.Gateway
 import KG.Lemmas.LocalLimiter
 import KG.Lemmas.Identity
 import KG.Props.C04
+import KG.Props.C01
+import KG.Props.C02
+import KG.Props.C03
 /-!
 # Lemmas about the composed model: what each outcome of `arrive` means, and the frame of every stage
 
@@ -316,14 +319,16 @@ theorem setCursor_get (cs : List Cluster) (p : Nat) (lb : List (Model.Endpoints.
     · have : p ≠ q := fun h => hq h.symm
       simp [hq, List.getElem?_set, this]
 
-/-- moving a cursor changes no configuration and no endpoint object -/
-theorem setCursor_cfg (cs : List Cluster) (p : Nat) (lb : List (Model.Endpoints.Key × Nat)) :
-    (setCursor cs p lb).map (fun cl => (cl.cfg.name, cl.ep.eps)) = cs.map (fun cl => (cl.cfg.name, cl.ep.eps)) := by
+/-- moving a cursor changes nothing that does not look at the cursors -/
+theorem setCursor_map {α : Type} (g : Cluster → α)
+    (hg : ∀ (cl : Cluster) (lb : List (Model.Endpoints.Key × Nat)), g { cl with ep := { cl.ep with lb := lb } } = g cl)
+    (cs : List Cluster) (p : Nat) (lb : List (Model.Endpoints.Key × Nat)) :
+    (setCursor cs p lb).map g = cs.map g := by
   apply List.ext_getElem?
   intro q
   rw [List.getElem?_map, List.getElem?_map, setCursor_get]
   by_cases hq : q = p
-  · subst hq; cases cs[q]? <;> simp
+  · subst hq; cases cs[q]? <;> simp [hg]
   · simp [hq]
 
 theorem setCursor_self (cs : List Cluster) (p : Nat) (cl : Cluster) (h : cs[p]? = some cl) : setCursor cs p cl.ep.lb = cs := by
@@ -528,5 +533,186 @@ theorem forward_dispatch {env : Env} {s : State} {r : Request} (hinv : Inv s)
     | picked n g => exact ⟨x, n, g, rfl, h8, hp⟩
     | noReady => rw [hp] at h9; cases h9
     | panic => rw [hp] at h9; cases h9
+
+/-- the outcomes that are answers of C04's chain model -/
+theorem arrive_badRequest {env : Env} {s : State} {r : Request}
+    (h : Model.Identity.parse r.lines = none ∨ Model.Forward.forwardRequest r.toForward = none) :
+    arrive env s r = (s, .badRequest) := by
+  unfold arrive
+  split
+  · rename_i h1 h2
+    rcases h with h | h
+    · rw [h] at h1; cases h1
+    · rw [h] at h2; cases h2
+  · rfl
+
+/-! ## the specification's view of the stages agrees with the model's (what the judge theorem needs) -/
+
+section Judge
+open KG.Spec.Gateway
+
+/-- the limiter's answer is the judge's demand; where the judge demands nothing (a token bucket) it is the bucket's -/
+theorem acquire_demand {w : Model.LocalLimiter.World} {σ : KG.Spec.LocalLimiter.SState} (h : KG.Lemmas.LocalLimiter.Rel w σ)
+    {c n : Str} {tb : Bool} {w' : Model.LocalLimiter.World} {b : Bool}
+    (ha : Model.LocalLimiter.acquire w c n tb = .ok (w', b)) :
+    b = (match KG.Spec.LocalLimiter.demand σ c n with | some d => d | none => tb) := by
+  obtain ⟨w'', b'', ha', hchk, _⟩ := KG.Lemmas.LocalLimiter.acquire_step h c n tb
+  rw [ha] at ha'
+  injection ha' with ha'
+  injection ha' with _ hb
+  subst hb
+  cases hd : KG.Spec.LocalLimiter.demand σ c n with
+  | some d =>
+    simp only [KG.Spec.LocalLimiter.check, hd] at hchk
+    simpa using hchk
+  | none =>
+    simp only
+    have hc := h.core
+    unfold KG.Spec.LocalLimiter.demand at hd
+    by_cases hn : n = []
+    · simp [hn] at hd
+    · simp only [hn, if_false] at hd
+      cases he : σ.entries c n with
+      | none => simp [he] at hd
+      | some e =>
+        rw [he] at hd
+        simp only at hd
+        have hdom := hc.dom c n
+        rw [he] at hdom
+        cases hcache : w.cache c n with
+        | none => rw [hcache] at hdom; simp at hdom
+        | some cache =>
+          have hcfg := hc.cfg c n cache e hcache he
+          cases hcur : cache.cur with
+          | none =>
+            have hz := hc.curNone c n cache hcache hcur
+            have hname := hc.name c n cache hcache
+            rw [hz] at hname
+            exact absurd hname.symm hn
+          | some id =>
+            obtain ⟨_, k, hk, hty, hok⟩ := hc.curOk c n cache id hcache hcur
+            unfold Model.LocalLimiter.acquire at ha
+            rw [KG.Lemmas.LocalLimiter.getOrDefault_eq] at ha
+            simp only [hn, if_false, hcache, Option.map_some, hcur, hk] at ha
+            cases k with
+            | bucket q bb =>
+              simp only [Model.LocalLimiter.Kind.tryAcquire] at ha
+              injection ha with ha
+              injection ha with _ hb
+              exact hb.symm
+            | counter cnt =>
+              exfalso
+              obtain ⟨m, hmi, _⟩ := hok cnt rfl
+              have hgt : Model.LocalLimiter.guessType e.config = .maxInflight := by rw [← hcfg, ← hty]; rfl
+              rw [hcfg] at hmi
+              simp [hgt, hmi] at hd
+            | infinity =>
+              exfalso
+              have hgt : Model.LocalLimiter.guessType e.config = .exempt := by rw [← hcfg, ← hty]; rfl
+              simp [hgt] at hd
+
+/-- the three things C04's table tells apart about the impersonation filter -/
+def impClass : Model.Forward.Imp → Nat
+  | .malformed => 0
+  | .refused => 1
+  | _ => 2
+
+theorem imp_match {α : Type} {a b : Model.Forward.Imp} (h : impClass a = impClass b) (X Y Z : α) :
+    (match a with | .malformed => X | .refused => Y | _ => Z) = (match b with | .malformed => X | .refused => Y | _ => Z) := by
+  cases a <;> cases b <;> simp [impClass] at h <;> rfl
+
+/-- C04's table looks at a flag only when every earlier stage passed -/
+theorem table_congr (a b : Model.Forward.Scenario)
+    (h1 : a.requestInfoOK = b.requestInfoOK) (h2 : a.hostIsIP = b.hostIsIP) (h3 : a.clusterKnown = b.clusterKnown)
+    (h4 : a.denyAll = b.denyAll) (h5 : a.authOK = b.authOK) (h6 : impClass a.imp = impClass b.imp)
+    (h10 : a.resource = b.resource)
+    (hlate : a.requestInfoOK = true → a.hostIsIP = false → a.clusterKnown = true → a.denyAll = false → a.authOK = true →
+      impClass a.imp = 2 →
+      a.policyMatches = b.policyMatches ∧ (a.policyMatches = true → a.acquireOK = b.acquireOK) ∧
+      (a.policyMatches = true → a.acquireOK = true → a.popOK = b.popOK)) :
+    KG.Spec.Forward.table a = KG.Spec.Forward.table b := by
+  unfold KG.Spec.Forward.table
+  rw [← h1, ← h2, ← h3, ← h4, ← h5]
+  by_cases c1 : a.requestInfoOK = true
+  swap
+  · simp [c1]
+  by_cases c2 : a.hostIsIP = true
+  · simp only [c1, c2, Bool.not_true, Bool.false_eq_true, if_false, if_true]
+    by_cases c5 : a.authOK = true
+    · simp only [c5, Bool.not_true, Bool.false_eq_true, if_false]
+      exact imp_match h6 _ _ _
+    · simp [c5]
+  by_cases c3 : a.clusterKnown = true
+  swap
+  · simp [c1, c2, c3]
+  by_cases c4 : a.denyAll = true
+  · simp [c1, c2, c3, c4]
+  by_cases c5 : a.authOK = true
+  swap
+  · simp [c1, c2, c3, c4, c5]
+  simp only [c1, c2, c3, c4, c5, Bool.not_true, Bool.false_eq_true, if_false]
+  have c2' : a.hostIsIP = false := by simpa using c2
+  have c4' : a.denyAll = false := by simpa using c4
+  cases hia : a.imp <;> cases hib : b.imp <;> simp [impClass, hia, hib] at h6 <;> simp only [] <;>
+    (obtain ⟨e7, e8, e9⟩ := hlate c1 c2' c3 c4' c5 (by simp [impClass, hia])
+     unfold KG.Spec.Forward.tableDispatch
+     rw [← e7, ← h10]
+     by_cases d7 : a.policyMatches = true
+     · rw [← e8 d7]
+       by_cases d8 : a.acquireOK = true
+       · rw [← e9 d7 d8]
+       · simp [d7, d8]
+     · simp [d7])
+
+/-- net/http accepted the header lines -/
+theorem rawValid_of_parse {r : Request} (hp : Model.Identity.parse r.lines ≠ none) : KG.Lemmas.Identity.rawValid r.lines = true := by
+  rw [KG.Lemmas.Identity.parse_eq] at hp
+  by_cases hv : KG.Lemmas.Identity.rawValid r.lines = true
+  · exact hv
+  · simp [hv] at hp
+
+theorem headersOf_eq {r : Request} (hv : KG.Lemmas.Identity.rawValid r.lines = true) :
+    headersOf r = KG.Lemmas.Identity.parsed r.lines := by
+  unfold headersOf
+  rw [KG.Lemmas.Identity.parse_eq]
+  simp [hv]
+
+/-- the impersonation filter and C02's specification, side by side -/
+theorem imp_expected {env : Env} {p : Option Nat} {r : Request} (hv : KG.Lemmas.Identity.rawValid r.lines = true)
+    (u : Model.Identity.Identity) :
+    (∃ h1 id, impersonation env p r u = .pass h1 id ∧ KG.Spec.Identity.expected r.lines u (env.authz p u) = .forward id ∧
+      impKind (Model.Identity.authnStrip (headersOf r)) (impersonation env p r u) ≠ .malformed ∧
+      impKind (Model.Identity.authnStrip (headersOf r)) (impersonation env p r u) ≠ .refused) ∨
+    (impersonation env p r u = .internalError ∧ KG.Spec.Identity.expected r.lines u (env.authz p u) = .answered 500) ∨
+    (impersonation env p r u = .forbidden ∧ KG.Spec.Identity.expected r.lines u (env.authz p u) = .answered 403) := by
+  have hspec := KG.Lemmas.Identity.impersonate_spec r.lines hv u (env.authz p u)
+  unfold impersonation
+  rw [headersOf_eq hv, hspec]
+  unfold KG.Spec.Identity.expected
+  by_cases c1 : (!KG.Spec.Identity.impersonationRequested r.lines) = true
+  · left
+    simp only [c1, if_true]
+    refine ⟨_, _, rfl, rfl, ?_, ?_⟩ <;> (simp only [impKind]; split <;> simp)
+  · simp only [c1, Bool.false_eq_true, if_false]
+    by_cases c2 : KG.Spec.Identity.malformed r.lines = true
+    · right; left; simp [c2]
+    · simp only [c2, Bool.false_eq_true, if_false]
+      by_cases c3 : KG.Spec.Identity.allAllowed (env.authz p u) r.lines = true
+      · left
+        simp only [c3, if_true]
+        refine ⟨_, _, rfl, rfl, ?_, ?_⟩ <;> (simp only [impKind]; split <;> simp)
+      · right; right; simp [c3]
+
+/-- what the property expects for a request whose lines net/http accepted -/
+theorem expectId_eq {env : Env} {p : Option Nat} {r : Request} (hv : KG.Lemmas.Identity.rawValid r.lines = true) :
+    expectId env p r = (match authenticate env p r with
+      | none => .answered 401
+      | some u => KG.Spec.Identity.expected r.lines u (env.authz p u)) := by
+  unfold expectId KG.Spec.Identity.expectedFor
+  have hv' : r.lines.all (fun l => Model.Identity.validName l.1 && Model.Identity.validValue l.2) = true := hv
+  simp only [hv', Bool.not_true, Bool.false_eq_true, if_false]
+  cases authenticate env p r <;> rfl
+
+end Judge
 
 end KG.Lemmas.Gateway
